@@ -393,7 +393,7 @@ func (i *c15Inst) Enabled(op int) bool {
 		// one table of contents per document (which of several UpdateTOC has to refresh is not stated)
 		return len(m.Tocs) == 0
 	case "auto":
-		return len(m.Tocs) == 0 || m.Tocs[0].Auto
+		return len(m.Tocs) <= 1
 	case "B-fn":
 		return i.b.doc == nil || len(i.b.m.Notes) < 4
 	case "B-item":
@@ -1392,7 +1392,7 @@ func runC15(r *rep.Run) {
 	r.Assume = []string{
 		"texts of items, notes and headings are unique per document, so that paragraphs, notes and entries are identified by text",
 		"a heading paragraph without text may or may not be listed (the statement lists headings 'with their text')",
-		"one table of contents per document: GenerateTOC is enabled only while the document has none, AutoGenerateTOC only while it has none or one made by AutoGenerateTOC (which it replaces); which of several tables UpdateTOC has to refresh is not stated",
+		"one table of contents per document: GenerateTOC is enabled only while the document has none, AutoGenerateTOC while it has none or one (made by either call), which it replaces; which of several tables UpdateTOC has to refresh is not stated",
 		"a level outside 0-8 may be clamped or kept: only the existence of the paragraph's w:ilvl in the definition and the requested format at that level are demanded; inside 0-8 the paragraph must carry the requested level",
 		"Open does not keep content controls (C03 known finding dropped|w:body/w:sdt): after a reopen that lost the table of contents the record forgets it too",
 		"AddNumberedList requests start 1; a StartNumber of 0 is satisfied by a definition starting at 0 or at 1 (zero value = not set); for bullet lists the start value and for numbered lists the symbol are not judged",
